@@ -46,6 +46,9 @@ type sx struct {
 }
 
 func (s *sx) String() string {
+	if s == nil {
+		return "<no-value>"
+	}
 	if s.list == nil {
 		return s.atom
 	}
@@ -134,6 +137,9 @@ func parseSx(text string) []*sx {
 }
 
 func sxInt(s *sx) (*big.Int, bool) {
+	if s == nil {
+		return nil, false
+	}
 	if s.list == nil {
 		n, ok := new(big.Int).SetString(s.atom, 10)
 		return n, ok
@@ -149,6 +155,9 @@ func sxInt(s *sx) (*big.Int, bool) {
 }
 
 func sxRat(s *sx) (*big.Rat, bool) {
+	if s == nil {
+		return nil, false
+	}
 	if s.list == nil {
 		r, ok := new(big.Rat).SetString(s.atom)
 		return r, ok
@@ -256,7 +265,7 @@ func (r *rbuilder) plan(v *Val, t types.Type, depth int) func() string {
 		r.want(v.T)
 		return func() string {
 			n, ok := sxInt(r.val[v.T.String()])
-			if !ok || !n.IsInt64() {
+			if !ok || n.BitLen() > 66 {
 				r.fail = "time value out of range"
 				return ""
 			}
@@ -264,7 +273,9 @@ func (r *rbuilder) plan(v *Val, t types.Type, depth int) func() string {
 			if n.Sign() == 0 {
 				return "time.Time{}"
 			}
-			return fmt.Sprintf("time.Unix(0, %d).UTC()", n.Int64())
+			// the model's timeline counts nanoseconds from the zero time.Time (year 1), so that 0 is IsZero()
+			q, m := new(big.Int).DivMod(n, big.NewInt(1000000000), new(big.Int))
+			return fmt.Sprintf("time.Unix(%d, %d).UTC()", q.Int64()-62135596800, m.Int64())
 		}
 	}
 	switch u := tt.Underlying().(type) {
@@ -311,6 +322,7 @@ func (r *rbuilder) plan(v *Val, t types.Type, depth int) func() string {
 		case u.Info()&types.IsString != 0:
 			r.want(v.T)
 			r.want(x.strLen(v.T))
+			r.probeImages(v.T)
 			return func() string { return r.cast(t, strconv.Quote(r.goString(v.T))) }
 		}
 	case *types.Slice:
@@ -446,6 +458,99 @@ func (r *rbuilder) cast(t types.Type, lit string) string {
 	return lit
 }
 
+// str1Names lists the unary string functions (trim, lower, ...) the query uses.
+func (r *rbuilder) str1Names() []string {
+	var out []string
+	for _, k := range sortedKeys(r.x.axiomsOn) {
+		if strings.HasPrefix(k, "str1:") {
+			out = append(out, k[5:])
+		}
+	}
+	return out
+}
+
+// probeImages asks the model for f(t) and g(f(t)) for the unary string functions in use: an abstract input whose
+// image is a literal can then be replaced by a concrete pre-image.
+func (r *rbuilder) probeImages(t *Term) {
+	if r.x.strTheory {
+		return
+	}
+	ns := r.str1Names()
+	for _, f := range ns {
+		ft := r.x.ufApp("str."+f, SStr, t)
+		r.want(ft)
+		for _, g := range ns {
+			if g != f {
+				r.want(r.x.ufApp("str."+g, SStr, ft))
+			}
+		}
+	}
+}
+
+// preimage looks for a concrete string whose images under the real Go functions agree with the model's images of t.
+func (r *rbuilder) preimage(t *Term) (string, bool) {
+	ns := r.str1Names()
+	type img struct {
+		fs  []string
+		val string
+	}
+	var known []img
+	for _, f := range ns {
+		ft := r.x.ufApp("str."+f, SStr, t)
+		if v := r.val[ft.String()]; v != nil {
+			if sv, ok := r.strOf[v.String()]; ok {
+				known = append(known, img{[]string{f}, sv})
+			}
+		}
+		for _, g := range ns {
+			if g == f {
+				continue
+			}
+			if v := r.val[r.x.ufApp("str."+g, SStr, ft).String()]; v != nil {
+				if sv, ok := r.strOf[v.String()]; ok {
+					known = append(known, img{[]string{f, g}, sv})
+				}
+			}
+		}
+	}
+	if len(known) == 0 {
+		return "", false
+	}
+	apply := func(fs []string, s string) string {
+		for _, f := range fs {
+			s = goStr1(f, s)
+		}
+		return s
+	}
+	var cands []string
+	for _, k := range known {
+		cands = append(cands, k.val, " "+k.val, strings.ToUpper(k.val), " "+strings.ToUpper(k.val)+" ")
+	}
+	for _, c := range cands {
+		ok := true
+		for _, k := range known {
+			if apply(k.fs, c) != k.val {
+				ok = false
+				break
+			}
+		}
+		if !ok {
+			continue
+		}
+		// must not collide with a string that stands for a different abstract value
+		clash := false
+		for _, used := range r.strOf {
+			if used == c {
+				clash = true
+			}
+		}
+		if !clash {
+			return c, true
+		}
+	}
+	return "", false
+}
+
 // goString maps the model value of a string term to a concrete Go string.
 func (r *rbuilder) goString(t *Term) string {
 	v := r.val[t.String()]
@@ -462,6 +567,10 @@ func (r *rbuilder) goString(t *Term) string {
 	k := v.String()
 	if s, ok := r.strOf[k]; ok {
 		return s
+	}
+	if c, ok := r.preimage(t); ok {
+		r.strOf[k] = c
+		return c
 	}
 	// an abstract value that is no literal of the query: synthesise a distinct string of the model's length
 	n := 1
@@ -576,9 +685,18 @@ func clauseMentionsGhost(x *Exec, e *Expr) bool {
 	return found
 }
 
-func attemptReplay(it *oblItem, outDir string) *replayOutcome {
+func attemptReplay(it *oblItem, outDir string) (out *replayOutcome) {
 	x, o := it.x, it.o
-	out := &replayOutcome{}
+	out = &replayOutcome{}
+	defer func() {
+		// a replay is an extra: whatever goes wrong in it, the violation is still reported (without an input)
+		if r := recover(); r != nil {
+			if os.Getenv("GOVC_DEBUG") != "" {
+				panic(r)
+			}
+			out = &replayOutcome{Why: fmt.Sprintf("replay machinery failed: %v", r)}
+		}
+	}()
 	if o.Kind != "ensures" || x.fc == nil || x.fn == nil || x.fn.Parent() != nil || x.exit == nil {
 		out.Why = "replay is built for ensures clauses of named functions"
 		return out
@@ -637,7 +755,8 @@ func attemptReplay(it *oblItem, outDir string) *replayOutcome {
 	for _, k := range sortedKeys(x.sentinel) {
 		r.want(x.sentinel[k])
 	}
-	// 1. model of the failed obligation
+	// 1. model of the failed obligation (planning may have declared heap symbols the function never read)
+	x.preludeText = ""
 	var q strings.Builder
 	q.WriteString("(set-option :produce-models true)\n")
 	q.WriteString(x.query(o, false))
@@ -649,10 +768,18 @@ func attemptReplay(it *oblItem, outDir string) *replayOutcome {
 	q.WriteString("))\n")
 	mfile := filepath.Join(outDir, "model-"+sanitizeFile(o.Name)+".smt2")
 	os.WriteFile(mfile, []byte(q.String()), 0o644)
-	verdict, text := runPlain([]string{"z3-new", "-smt2", "-T:20", mfile}, 25)
+	verdict, text := runPlain([]string{"z3-new", "-smt2", "-T:10", mfile}, 15)
 	if verdict != "sat" {
-		out.Why = "no model: the solver answers " + verdict + " on the failed obligation"
-		return out
+		v2, t2 := runPlain([]string{"cvc5", "--lang=smt2", "--tlimit=15000", "--strings-exp", "--produce-models", mfile}, 20)
+		if v2 != "sat" {
+			v3, t3 := runPlain([]string{"z3", "-smt2", "-T:10", mfile}, 15)
+			if v3 != "sat" {
+				out.Why = "no model: the solvers answer " + verdict + " / " + v2 + " / " + v3 + " on the failed obligation"
+				return out
+			}
+			v2, t2 = v3, t3
+		}
+		verdict, text = v2, t2
 	}
 	rest := text[strings.Index(text, "\n")+1:]
 	forms := parseSx(rest)
@@ -661,6 +788,9 @@ func attemptReplay(it *oblItem, outDir string) *replayOutcome {
 		return out
 	}
 	r.val = map[string]*sx{}
+	if os.Getenv("GOVC_DEBUG") != "" {
+		fmt.Fprintf(os.Stderr, "replay: %d values for %d terms\n", len(forms[0].list), len(r.need))
+	}
 	for i, pr := range forms[0].list {
 		if len(pr.list) == 2 && i < len(r.need) {
 			r.val[r.need[i].String()] = pr.list[1]
@@ -721,18 +851,13 @@ func attemptReplay(it *oblItem, outDir string) *replayOutcome {
 	r.imports["reflect"] = "reflect"
 	r.imports["time"] = "time"
 	r.imports["math"] = "math"
+	r.imports["math/big"] = "big"
 	var ips []string
 	for p := range r.imports {
 		ips = append(ips, p)
 	}
 	sort.Strings(ips)
-	for _, p := range ips {
-		if r.imports[p] == p[strings.LastIndex(p, "/")+1:] {
-			fmt.Fprintf(&src, "\t%q\n", p)
-		} else {
-			fmt.Fprintf(&src, "\t%s %q\n", r.imports[p], p)
-		}
-	}
+	src.WriteString("\t//IMPORTS\n")
 	src.WriteString(")\n\n")
 	fmt.Fprintf(&src, "var govcSentinels = []struct {\n\tname string\n\terr  error\n}{%s}\n\n", strings.Join(sentinels, ", "))
 	src.WriteString(replayDumper)
@@ -751,7 +876,20 @@ func attemptReplay(it *oblItem, outDir string) *replayOutcome {
 		fmt.Fprintf(&src, "\t%s\n", call)
 	}
 	src.WriteString("\tfmt.Println(\"GOVC-DONE\")\n\t_ = errors.New\n\t_ = time.Now\n\t_ = math.NaN\n}\n")
-	out.TestSource = src.String()
+	body := src.String()
+	var imp strings.Builder
+	for _, p := range ips {
+		name := r.imports[p]
+		if !strings.Contains(body, name+".") {
+			continue // registered while describing a type that was not emitted
+		}
+		if name == p[strings.LastIndex(p, "/")+1:] {
+			fmt.Fprintf(&imp, "\t%q\n", p)
+		} else {
+			fmt.Fprintf(&imp, "\t%s %q\n", name, p)
+		}
+	}
+	out.TestSource = strings.Replace(body, "\t//IMPORTS\n", imp.String(), 1)
 	out.PkgDir = pkgDir
 	lines, cmd, err := runReplayTest(pkgDir, out.TestSource)
 	out.Cmd = cmd
@@ -981,12 +1119,13 @@ func (r *rbuilder) bindObserved(v *Val, t types.Type, path string, obs map[strin
 const replayDumper = `
 func govcDump(path string, v reflect.Value) {
 	if v.Type() == reflect.TypeOf(time.Time{}) {
-		tm := v.Interface().(time.Time)
-		if tm.IsZero() {
-			fmt.Printf("GOVC-RES %s I 0\n", path)
-		} else {
-			fmt.Printf("GOVC-RES %s I %d\n", path, tm.UnixNano())
+		if !v.CanInterface() {
+			v = reflect.NewAt(v.Type(), v.Addr().UnsafePointer()).Elem()
 		}
+		tm := v.Interface().(time.Time)
+		ns := new(big.Int).Mul(big.NewInt(tm.Unix()+62135596800), big.NewInt(1000000000))
+		ns.Add(ns, big.NewInt(int64(tm.Nanosecond())))
+		fmt.Printf("GOVC-RES %s I %s\n", path, ns.String())
 		return
 	}
 	switch v.Kind() {
